@@ -349,7 +349,7 @@ pub fn render_fancy(g: &AG, rng: &mut Rng, o: &YOpts) -> RenderedY {
             }
             D::ActionType => {
                 r.constructs.push("%actiontype");
-                w.t.push_str("%actiontype u64");
+                w.t.push_str(&format!("%actiontype {}", g.rules[0].actiontype.as_deref().unwrap_or("u64")));
             }
             D::Prec(lvl) => {
                 r.constructs.push("precedence");
